@@ -29,6 +29,13 @@ func DumpExplore(p *core.Prog) {
 			}
 		}
 	}
+	for pk := range p.Pkgs {
+		c := core.NewCtx(p, "x", "quick")
+		fieldWiseCopies(c, pk)
+		for _, o := range c.Obls {
+			fmt.Println("FIELDCOPY", pk, o.Status, o.Key, o.Pos, o.Detail[:min(len(o.Detail), 200)])
+		}
+	}
 	for _, set := range [][]string{{"std/engine/basic", "std/object", "std/sync"}, {"std/schema", "std/schema/rdr", "std/schema/svs", "std/engine/basic"}} {
 		edges := core.LockOrder(p, set)
 		fmt.Println("LOCKORDER", set, len(edges), "edges")
